@@ -337,7 +337,7 @@ class World:
         else:
             control.append(('--ignore-config', ['--ignore-config'], None))
         for _ in range(case.get('verbose', 0)):
-            control.append(('--verbose', ['--verbose'], None))
+            control.append(('--verbose', ['-v', '--verbose'], None))
         if case.get('default_location'):
             # the same file at the DEFAULT location of a HOME of its own; neither --config nor --ignore-config is given
             home = self.root / f'home{self.n}'
@@ -554,7 +554,15 @@ def precedence_cases(world, ctx, backends, all_commands):
                         mode = [2, 2, 1, 2, 0][ci % 5]
                         if ci % 5 in (1, 3):
                             extra = [other_option(world, backend, row, 'prof')]
-                    cases.append(world.make_case(case_backend, cmd, given, selector=sel, profile_mode=mode, extra=extra))
+                    # verbosity is a dimension of every case: -v / -vv on the command line, log-level in the file
+                    if row['dest'] != 'log_level' and ci % 4 == 1 and (mode in (1, 2) or 'prof' in sub or 'dflt' in sub):
+                        lvl = next(r for r in world.general if r['name'] == 'log-level')
+                        sec = 'prof' if ('prof' in sub or (mode == 2 and ci % 8 == 1)) else 'dflt'
+                        if not any(r['name'] == 'log-level' for r, _, _ in extra):
+                            extra = extra + [(lvl, sec, ['info', 'debug', 'INFO'][ci % 3])]
+                    c = world.make_case(case_backend, cmd, given, selector=sel, profile_mode=mode, extra=extra)
+                    c['verbose'] = [0, 0, 1, 2, 0, 1][ci % 6]
+                    cases.append(c)
                     ci += 1
     return cases
 
@@ -870,6 +878,19 @@ def check(world, cases, rep: Report, with_model=True):
                 if obs['args'].get(row['dest']) != want:
                     rep.violations.append({'what': f'option {winner[0]} from {winner[1]} names a file holding {want}; the command receives {obs["args"].get(row["dest"])}',
                                            'signature': {'kind': 'secret_file_bytes', 'option': winner[0]}, 'replay': label(case)})
+    # (10) a password / key given as a string reaches the command as exactly these bytes, whatever the verbosity
+    for case, obs in zip(cases, results):
+        if obs['status'] != 'ok' or case['kind'] not in ('precedence', 'agreement') or not case['given']:
+            continue
+        if len({n for n, _, _ in case['given']}) != 1:
+            continue
+        winner = min(case['given'], key=lambda g: SOURCES.index(g[1]))
+        row = rows_by_backend[case['backend']][winner[0]]
+        if row[{'cli': 'cli', 'env': 'env', 'prof': 'file', 'dflt': 'file'}[winner[1]]] == 'CoBytes' and isinstance(winner[2], str):
+            want = ['bytes', winner[2]]
+            if obs['args'].get(row['dest']) != want:
+                rep.violations.append({'what': f'{case["argv"]} with {case["env"]}: option {winner[0]} from {winner[1]} is {winner[2]!r}; the command receives {obs["args"].get(row["dest"])}',
+                                       'signature': {'kind': 'secret_value', 'option': winner[0], 'source': winner[1]}, 'replay': label(case)})
     # (8) the configuration file at its default location acts exactly like the same file named with --config: both are
     #     refused loudly (a secret file that does not exist), or both give the same effective values
     loc = {}
@@ -973,6 +994,39 @@ RULE = ('one option (general, built-in backend, custom backend on the namespace-
         'distinct = distinct (kind, backend, command, given values, selector, profile mode)')
 
 
+def end_to_end(world, rep):
+    """The real program, nothing replaced: `init` with the password from the environment / the profile at some verbosity, then
+    `list-snapshots` at ANOTHER verbosity with the same password source must open the repository."""
+    base = {'PATH': '/usr/bin:/bin', 'PYTHONHASHSEED': '0', 'PYTHONDONTWRITEBYTECODE': '1', 'LANG': 'C.UTF-8',
+            'PYTHONPATH': f'{core.PYSHIM}:{core.REPO}', 'HOME': str(world.root / 'home')}
+    kdf = ['--encryption.kdf.n', '4', '--encryption.kdf.r', '1', '--encryption.kdf.p', '1']
+    k = 0
+    for source in ('env', 'profile'):
+        for v_init, v_ls in ((['-v'], []), ([], ['-vv']), (['-vv'], ['-v'])):
+            k += 1
+            d = world.root / f'e2e{k}'
+            d.mkdir()
+            env, cfg = dict(base), ['--ignore-config']
+            if source == 'env':
+                env['REPLICAT_PASSWORD'] = 'end-to-end secret'
+            else:
+                (d / 'c.toml').write_text('[p]\npassword = "end-to-end secret"\n')
+                cfg = ['--config', str(d / 'c.toml'), '--profile', 'p']
+            steps = [['init', '-r', str(d / 'repo'), '-o', str(d / 'key')] + cfg + v_init + kdf,
+                     ['list-snapshots', '-r', str(d / 'repo'), '-K', str(d / 'key')] + cfg + v_ls]
+            case = {'kind': 'end-to-end', 'password_source': source, 'steps': steps}
+            rep.case(('end-to-end', source, v_init, v_ls), nontrivial=True)
+            rep.count('end-to-end:runs')
+            for argv in steps:
+                p = subprocess.run([core.PY, '-m', 'replicat'] + argv, env=env, cwd=str(d), capture_output=True, text=True, timeout=300)
+                if p.returncode != 0:
+                    tail = (p.stderr.strip().splitlines() or ['?'])[-1]
+                    rep.violations.append({'what': f'password from the {source}: `replicat {" ".join(steps[0])}` then `replicat {" ".join(steps[1])}`: '
+                                                   f'{argv[0]} exits with status {p.returncode} ({tail[:120]})',
+                                           'signature': {'kind': 'end_to_end', 'password_source': source}, 'replay': case})
+                    break
+
+
 def run(ctx) -> Report:
     rep = Report(rule=RULE)
     world = World(ctx)
@@ -986,6 +1040,7 @@ def run(ctx) -> Report:
     cases += secret_file_cases(world) + collision_cases(world)
     cases += exclusive_cases(world) + invalid_cases(world) + double_coercion_cases(world)
     check(world, cases, rep)
+    end_to_end(world, rep)
     rep.extra['processes'] = len(cases)
     return rep
 
